@@ -42,6 +42,38 @@ CLAIMS = {
          "Decides the structural part of cancel/purge/close: plain status stores only where the job is exclusively owned, all other transitions compare-and-swap whose attempted transitions (every Load may return any state) go to Closed only from Created/Queued/Finished and to Processing never from Closed; Close result table over 5 states x 6 implementations; closed test precedes every mutation in both Enqueue implementations; Purge closes what it removes. One known finding (Purge = Values()+Purge(), two critical sections).",
          "Trusts sync/atomic CAS; adapters excluded.",
          "DESIGN.md §3 C10"),
+ "C11": ("who-may-call + def-use value flow + path analysis + job-status table",
+         "Library side of at-least-once: Acknowledge only in job.ack, ack only in Close, Close on dequeued jobs only in the completion callback after the worker function; the receipt attached is the third result of this delivery's DequeueWithAckId and is what Acknowledge receives, on the queue the item came from, both attached before the hand-off; ack at most once, never for an empty id or closed job, refusal is an error before any release; the dispatcher path never acknowledges; persistent/distributed Add is true only when the adapter accepted. Does not decide the adapter's bookkeeping or crash points inside it.",
+         "Trusts the adapter to re-deliver unacknowledged items.",
+         "DESIGN.md §3 C11"),
+ "C12": ("table extraction (status writer/reader tables, wire struct) + path analysis",
+         "Status writer and reader tables are inverse bijections with an erroring default; one wire struct with distinct JSON names, id/payload wired through both directions; encode error ⇒ false and nothing enqueued, the bytes enqueued are Json()'s; decode/cast failures are non-nil error returns that the dispatcher reports without leaving its loop; decoded jobs get their queue before the hand-off. Does not decide encoding/json round-trip equality for payload values.",
+         "Trusts encoding/json to honour struct tags.",
+         "DESIGN.md §3 C12"),
+ "C13": ("sibling agreement of the distributed binders + path analysis of the subscription handler",
+         "Each distributed binder performs exactly one Register(adapter) → start → Subscribe(own handler); the handler counts one submission and notifies per 'enqueued' and nothing otherwise; producer-side Add touches no worker; a lost dequeue race is an error return, not a loop exit; completion re-notifies. Does not decide that exactly one of k consumers runs an item (the adapter's atomic dequeue).",
+         "Trusts the adapter's Dequeue and notification delivery.",
+         "DESIGN.md §3 C13"),
+ "C14": ("finite-domain status propagation: lifecycle and bind methods extracted as a sequential transition table, compared with the documented machine",
+         "Every (method, initial state) cell of Pause, PauseAndWait, Resume, Stop, WaitAndStop, Restart, TunePool, start and all 16 public bind methods equals the documented machine (error, final state, required/forbidden effects); closed channels are final or re-made; the context listener stops only its own run; Status()/Is* tables. Sequential semantics: concurrent control calls are not decided.",
+         "One control call at a time.",
+         "DESIGN.md §3 C14"),
+ "C15": ("path counting over the bind methods + table extraction of the strategy switch and comparators + lockset",
+         "Every public bind method registers the bound queue exactly once; strategy switch table; round-robin cursor discipline (write lock, +1 mod n, pre-increment item, non-empty, one cycle); MaxLen comparator sign and MinLen update condition on all order types; item list append-only, nothing unregisters. Does not decide long-run fairness under concurrent submission.",
+         "Trusts slices.MaxFunc.",
+         "DESIGN.md §3 C15"),
+ "C16": ("path analysis of the submit family + status-writer inventory + interference-mode CAS analysis",
+         "Queued is stored before the publishing Enqueue in all 12 handle-returning submit paths and never after; plain status stores only at construction, as Queued before publication and as Finished in the completion callback; all other transitions are forward-only compare-and-swaps. Together with the completion order this excludes backward moves of a handle's status.",
+         "Trusts sync/atomic.",
+         "DESIGN.md §3 C16"),
+ "C17": ("lockset over atomic counter reads + path analysis of submit/completion/wrappers + who-may-call",
+         "No function combines two separately loaded counters without the writers' lock; Submitted once per accepted submission / announcement, never on rejection; one Completed per completion, one of Successful/Failed per invocation; queues registered once and Manager.Len sums them under the lock; in-flight inc/dec pairing; Purge resets both counters under the write lock. Does not decide transient bounds between atomics of different objects.",
+         "Lock identity per (type, field).",
+         "DESIGN.md §3 C17"),
+ "C18": ("goroutine inventory + lifecycle table + path rules + table extraction",
+         "Every go statement is classified with its blocking receives and the event that releases them, each performed by every Stop outcome (a ticker loop needs a done case closed by stopTickers); Stop's full tear-down after the wait, Restart removes idle nodes first; nodes created only on the empty-idle-list branch and once in start; snapshot slices bounded by the snapshot's own length; minimum idle = max(limit*ratio/100,1) on sample points, kept by freePoolNode and by TunePool's strict shrink guard; node ownership typestate. Does not decide expiry timing.",
+         "time.Ticker.Stop does not close C.",
+         "DESIGN.md §3 C18"),
  "C19": ("context-sensitive static lockset over every struct field of the library (abstract interpretation, CHA, instantiation-aware)",
          "For every struct field reachable from the public API, goroutine bodies and callbacks: never written after publication, or one common lock (writers in write mode), or a listed hand-off whose structural side conditions are re-checked. A static over-approximation of data-race freedom for lock/atomic/channel-hand-off synchronisation; other happens-before idioms are reported, never silently accepted.",
          "Trusts go/types, sync/atomic/channels; internal packages are not user-callable; mocks and user adapters excluded.",
